@@ -10,6 +10,7 @@ from .model import Repo, FuncInfo, ClassInfo, AnalysisError, dotted, norm, walk_
 from .resolve import Resolver, Resolved
 from .raises import RaiseModel
 from .cfg import CFG, Node, explore, Escape, format_path
+from .flow import Flow
 
 
 class Analysis:
@@ -18,6 +19,7 @@ class Analysis:
         self.repo = Repo(root)
         self.rs = Resolver(self.repo)
         self.rm = RaiseModel(self.repo, self.rs)
+        self.flow = Flow(self.rs)
         self._cfg: dict[str, CFG] = {}
         _install_repo_knowledge(self)
 
